@@ -196,6 +196,59 @@ pub fn parse_export(b: &[u8]) -> Option<Export> {
   Some(Export { oprf_key, base_pk, md_pks, prgs, prefixes, punctured, ggm_offset })
 }
 
+
+/// the inverse of `parse_export` (used to hand crafted key states to a server); callers validate it on an
+/// honest export first (print(parse(b)) == b) and skip their check otherwise
+pub fn print_export(e: &Export) -> Vec<u8> {
+  fn bitvec(out: &mut Vec<u8>, bits: &[bool]) {
+    let order = b"bitvec::order::Lsb0";
+    out.extend_from_slice(&(order.len() as u64).to_le_bytes());
+    out.extend_from_slice(order);
+    out.push(64);
+    out.push(0);
+    out.extend_from_slice(&(bits.len() as u64).to_le_bytes());
+    let words = (bits.len() + 63) / 64;
+    out.extend_from_slice(&(words as u64).to_le_bytes());
+    for w in 0..words {
+      let mut v = 0u64;
+      for i in 0..64 {
+        if bits.get(w * 64 + i).copied().unwrap_or(false) {
+          v |= 1 << i;
+        }
+      }
+      out.extend_from_slice(&v.to_le_bytes());
+    }
+  }
+  let mut out = vec![];
+  out.extend_from_slice(&e.oprf_key);
+  out.extend_from_slice(&e.base_pk);
+  out.extend_from_slice(&(e.md_pks.len() as u64).to_le_bytes());
+  for (k, v) in &e.md_pks {
+    out.push(*k);
+    out.extend_from_slice(v);
+  }
+  out.extend_from_slice(&(e.prgs.len() as u64).to_le_bytes());
+  for p in &e.prgs {
+    out.extend_from_slice(p);
+  }
+  out.extend_from_slice(&(e.prefixes.len() as u64).to_le_bytes());
+  for (b, seed) in &e.prefixes {
+    bitvec(&mut out, b);
+    out.extend_from_slice(&(seed.len() as u64).to_le_bytes());
+    out.extend_from_slice(seed);
+  }
+  out.extend_from_slice(&(e.punctured.len() as u64).to_le_bytes());
+  for b in &e.punctured {
+    bitvec(&mut out, b);
+  }
+  out
+}
+impl Node {
+  pub fn to_bools(&self) -> Vec<bool> {
+    (0..self.len).map(|i| self.bits >> i & 1 == 1).collect()
+  }
+}
+
 // ---------------------------------------------------------------- Strobe replica of the tree PRG (extraction aid only)
 
 fn prg(key: &[u8; 32], input: &[u8]) -> [u8; 32] {
